@@ -737,6 +737,16 @@ func schedToyFast(p1, p2 []uint64, N int, Q, MRedConstant uint64, roots []uint64
 	}
 }
 
+// GUARDIDX control: the guard looks at the neighbour, the merge takes the partner at distance t
+func mergeTree(cts []*rlwe.Ciphertext, t int, merge func(a, b *rlwe.Ciphertext) *rlwe.Ciphertext) {
+	for j := 0; j < t; j++ {
+		if cts[j] != nil || cts[j+1] != nil {
+			cts[j] = merge(cts[j], cts[j+t])
+			cts[j+t] = nil
+		}
+	}
+}
+
 // ERRSTORE control: the failed product stays in the cache
 type powCache struct{ vals map[int]*big.Int }
 
